@@ -27,6 +27,7 @@ import (
 	"io"
 	"net/http"
 	"net/http/httptest"
+	"net/url"
 	"sort"
 	"strings"
 	"sync"
@@ -115,6 +116,25 @@ func c11NewEnv() *c11Env {
 	env.srv = httptest.NewServer(http.HandlerFunc(func(w http.ResponseWriter, r *http.Request) {
 		body, _ := io.ReadAll(r.Body)
 
+		// token endpoint of the oauth2_client_credentials strategy (not a call to the remote system of the mechanism)
+		if strings.HasPrefix(r.URL.Path, "/t/") {
+			form, _ := url.ParseQuery(string(body))
+			id, secret := form.Get("client_id"), form.Get("client_secret")
+
+			if u, p, ok := r.BasicAuth(); ok {
+				id, _ = url.QueryUnescape(u)
+				secret, _ = url.QueryUnescape(p)
+			}
+
+			w.Header().Set("Content-Type", "application/json")
+			json.NewEncoder(w).Encode(map[string]any{
+				"access_token": "tok:" + id + ":" + secret + ":" + form.Get("scope") + ":" + env.srv.URL + r.URL.Path,
+				"token_type":   "Bearer", "expires_in": 3600,
+			})
+
+			return
+		}
+
 		e := c11Echo{U: r.URL.RequestURI(), M: r.Method, H: map[string]string{}, C: map[string]string{}, B: string(body)}
 
 		for k, v := range r.Header {
@@ -129,6 +149,8 @@ func c11NewEnv() *c11Env {
 
 		if u, p, ok := r.BasicAuth(); ok {
 			e.A = "basic:" + u + ":" + p
+		} else {
+			e.A = r.Header.Get("Authorization")
 		}
 
 		env.mu.Lock()
@@ -215,6 +237,11 @@ type c11Auth struct {
 	Value string `json:"value,omitempty"`
 	User  string `json:"user,omitempty"`
 	Pass  string `json:"pass,omitempty"`
+	// client_credentials (token cache of the strategy switched off)
+	TokenURL string   `json:"token_url,omitempty"`
+	ClientID string   `json:"client_id,omitempty"`
+	Secret   string   `json:"secret,omitempty"`
+	Scopes   []string `json:"scopes,omitempty"`
 }
 
 type c11Ep struct {
@@ -544,6 +571,10 @@ func c11EpConf(e c11Ep) map[string]any {
 		m["auth"] = map[string]any{"type": "api_key", "config": map[string]any{"in": e.Auth.In, "name": e.Auth.Name, "value": e.Auth.Value}}
 	case "basic_auth":
 		m["auth"] = map[string]any{"type": "basic_auth", "config": map[string]any{"user": e.Auth.User, "password": e.Auth.Pass}}
+	case "client_credentials":
+		m["auth"] = map[string]any{"type": "oauth2_client_credentials", "config": map[string]any{
+			"token_url": e.Auth.TokenURL, "client_id": e.Auth.ClientID, "client_secret": e.Auth.Secret,
+			"scopes": c11Strs(e.Auth.Scopes), "cache_ttl": "0s"}}
 	}
 
 	return m
@@ -1020,6 +1051,8 @@ func c11ProposeKey(c c11Conf, q c11Req, ho, vo []string, tab *c11Sha) string {
 		ep.WriteString(tab.sum(c.Ep.Auth.In + c.Ep.Auth.Name + c.Ep.Auth.Value))
 	case "basic_auth":
 		ep.WriteString(tab.sum(c.Ep.Auth.User + c.Ep.Auth.Pass))
+	case "client_credentials":
+		ep.WriteString(tab.sum(c.Ep.Auth.ClientID + c.Ep.Auth.Secret + c.Ep.Auth.TokenURL + strings.Join(c.Ep.Auth.Scopes, "")))
 	}
 
 	eh := tab.sum(ep.String())
@@ -1086,6 +1119,9 @@ func c11Explain(c c11Conf, q c11Req, observed string, tab *c11Sha) (ho, vo []str
 	if c.Kind == "remote" || c.Kind == "ctx" {
 		vn = c11Names(c.Values)
 	}
+
+	// the digests of the canonical (sorted) order are always in the table: the model needs them whatever the code does
+	c11ProposeKey(c, q, hn, vn, tab)
 
 	for _, hp := range c11Permutations(hn) {
 		for _, vp := range c11Permutations(vn) {
@@ -1316,6 +1352,8 @@ func c11CoqAuth(a c11Auth) string {
 		return vf.CoqApp("AApiKey", vf.CoqStr(a.In), vf.CoqStr(a.Name), vf.CoqStr(a.Value))
 	case "basic_auth":
 		return vf.CoqApp("ABasic", vf.CoqStr(a.User), vf.CoqStr(a.Pass))
+	case "client_credentials":
+		return vf.CoqApp("AClientCred", vf.CoqStr(a.TokenURL), vf.CoqStr(a.ClientID), vf.CoqStr(a.Secret), vf.CoqStrs(a.Scopes))
 	}
 
 	return "ANone"
@@ -1435,9 +1473,9 @@ func (env *c11Env) coq(c c11Case, o c11Obs, effs []c11Conf, tab *c11Sha) string 
 func c11Lit(s string) c11Piece { return c11Piece{K: "lit", S: s} }
 
 var (
-	c11SubIDs  = []string{"alice", "bobby", "carol"}                                       //nolint:gochecknoglobals
+	c11SubIDs  = []string{"alice", "bob", "carolyn"}                                       //nolint:gochecknoglobals
 	c11Attrs   = []string{"", "x1", "x2"}                                                  //nolint:gochecknoglobals
-	c11HVals   = []string{"h1", "h2", "h3"}                                                //nolint:gochecknoglobals
+	c11HVals   = []string{"h1", "h22", "h333"}                                             //nolint:gochecknoglobals
 	c11Creds   = []string{"t.alice.r", "t.alice.rw", "t.bobby.r", "x.carol.r", "t.nobody"} //nolint:gochecknoglobals
 	c11ReqHdrs = []string{"X-P", "X-V1", "X-V2", "X-F1", "X-F2"}                           //nolint:gochecknoglobals
 )
@@ -1502,10 +1540,13 @@ func (env *c11Env) genProto(r *vf.Rand, kind string) c11Conf {
 	case x < 72:
 	case x < 86:
 		p.Ep.Auth = c11Auth{Kind: "api_key", In: "header", Name: "X-Api", Value: vf.Pick(r, []string{"k1", "k2"})}
-	case x < 91:
+	case x < 90:
 		p.Ep.Auth = c11Auth{Kind: "api_key", In: "cookie", Name: "api", Value: "k1"}
+	case x < 95:
+		p.Ep.Auth = c11Auth{Kind: "client_credentials", TokenURL: env.srv.URL + "/t/a", ClientID: "cid", Secret: vf.Pick(r, []string{"sec", "s3cr"}),
+			Scopes: vf.Pick(r, [][]string{nil, {"read"}, {"ab", "c"}})}
 	default:
-		p.Ep.Auth = c11Auth{Kind: "basic_auth", User: "svc", Pass: vf.Pick(r, []string{"pw1", "pw2"})}
+		p.Ep.Auth = c11Auth{Kind: "basic_auth", User: "svc", Pass: vf.Pick(r, []string{"pw1", "pw22"})}
 	}
 
 	if kind == "ctx" || kind == "gen" {
@@ -1702,6 +1743,18 @@ func (env *c11Env) genSibling(r *vf.Rand, p c11Conf) (c11Conf, string) {
 			return q, "sibling:shift-basic"
 		}
 
+		if p.Ep.Auth.Kind == "client_credentials" {
+			if len(p.Ep.Auth.Scopes) == 2 && r.Bool() {
+				q.Ep.Auth.Scopes = []string{"a", "bc"}
+
+				return q, "sibling:shift-cc-scopes"
+			}
+
+			q.Ep.Auth.Secret = p.Ep.Auth.Secret + "x"
+
+			return q, "sibling:cc-secret"
+		}
+
 		return q, "sibling:id"
 	case x < 86:
 		q.Ep.URL = append(append(c11Tpl(nil), p.Ep.URL...), c11Lit("x"))
@@ -1800,7 +1853,7 @@ func c11GenReq(r *vf.Rand) c11Req {
 		q.Cookies = append(q.Cookies, c11KV{K: "ck1", V: vf.Pick(r, []string{"c1", "c2"})})
 	}
 
-	q.Outputs = append(q.Outputs, c11KV{K: "foo", V: vf.Pick(r, []string{"o1", "o2"})})
+	q.Outputs = append(q.Outputs, c11KV{K: "foo", V: vf.Pick(r, []string{"o1", "o22"})})
 
 	if r.Chance(70) {
 		q.Outputs = append(q.Outputs, c11KV{K: "bar", V: vf.Pick(r, []string{"o3", "o4"})})
@@ -1867,7 +1920,7 @@ func c11Vary(r *vf.Rand, q c11Req, kind string) (c11Req, string) {
 	default:
 		name := strings.TrimPrefix(what, "out:")
 		cur, _ := c11Lookup(q.Outputs, name)
-		n.Outputs = c11SetKV(q.Outputs, name, c11Other(r, []string{"o1", "o2", "o3"}, cur))
+		n.Outputs = c11SetKV(q.Outputs, name, c11Other(r, []string{"o1", "o22", "o333"}, cur))
 	}
 
 	return n, "diff:" + what
@@ -1890,11 +1943,33 @@ func (env *c11Env) gen(r *vf.Rand) c11Case {
 	if r.Chance(28) {
 		sib, what := env.genSibling(r, c.Protos[0])
 		c.Protos = append(c.Protos, sib)
-		c.Insts = append(c.Insts, c11InstSpec{Proto: 1})
+		c.Insts = append(c.Insts, c11InstSpec{Proto: len(c.Protos) - 1})
 		notes = append(notes, what)
 	}
 
+	// a real pipeline: mechanisms of several kinds look things up in the one shared cache
+	if r.Chance(40) {
+		for _, k2 := range []string{"intro", "gen", "remote", "ctx"} {
+			if k2 != kind && r.Chance(45) {
+				p2 := env.genProto(r, k2)
+				p2.ID = k2 + "-" + p2.ID
+				c.Protos = append(c.Protos, p2)
+				c.Insts = append(c.Insts, c11InstSpec{Proto: len(c.Protos) - 1})
+			}
+		}
+
+		if len(c.Insts) > 1 {
+			notes = append(notes, "mixed-kinds")
+		}
+	}
+
+	kindOf := func(inst int) string { return c.Protos[c.Insts[inst].Proto].Kind }
+
 	n := 2 + r.Intn(4)
+	if len(c.Protos) > 2 {
+		n += 2
+	}
+
 	base := c11GenReq(r)
 	c.Steps = []c11Step{{Inst: 0, Req: base, Rel: "first"}}
 
@@ -1907,7 +1982,7 @@ func (env *c11Env) gen(r *vf.Rand) c11Case {
 		case x < 52 && len(c.Insts) > 1:
 			other := (from.Inst + 1 + r.Intn(len(c.Insts)-1)) % len(c.Insts)
 			c.Steps = append(c.Steps, c11Step{Inst: other, Req: from.Req, Rel: "other-instance"})
-		case x < 62 && (kind == "remote" || kind == "ctx") && len(c.Protos[0].Values) >= 2:
+		case x < 62 && c.Insts[from.Inst].Proto == 0 && (kind == "remote" || kind == "ctx") && len(c.Protos[0].Values) >= 2:
 			// the two values shifted against each other (v1 = a, v2 = "v2"+b   vs   v1 = a+"v2", v2 = b)
 			a, b := vf.Pick(r, c11HVals), vf.Pick(r, c11HVals)
 			q1, q2 := from.Req, from.Req
@@ -1915,8 +1990,28 @@ func (env *c11Env) gen(r *vf.Rand) c11Case {
 			q2.Headers = c11SetKV(c11SetKV(from.Req.Headers, "X-V1", a+"v2"), "X-V2", b)
 			c.Steps = append(c.Steps, c11Step{Inst: from.Inst, Req: q1, Rel: "shift-a"}, c11Step{Inst: from.Inst, Req: q2, Rel: "shift-b"})
 		default:
-			q, what := c11Vary(r, from.Req, kind)
+			q, what := c11Vary(r, from.Req, kindOf(from.Inst))
 			c.Steps = append(c.Steps, c11Step{Inst: from.Inst, Req: q, Rel: what})
+		}
+	}
+
+	// every instance of a mixed history is used, and used again
+	if len(c.Protos) > 1 {
+		used := map[int]int{}
+		for _, st := range c.Steps {
+			used[st.Inst]++
+		}
+
+		for i := range c.Insts {
+			for used[i] < 2 && c.Insts[i].Proto > 0 {
+				q := base
+				if used[i] == 1 && r.Chance(50) {
+					q, _ = c11Vary(r, base, kindOf(i))
+				}
+
+				c.Steps = append(c.Steps, c11Step{Inst: i, Req: q, Rel: "other-instance"})
+				used[i]++
+			}
 		}
 	}
 
@@ -1930,7 +2025,7 @@ func (env *c11Env) gen(r *vf.Rand) c11Case {
 		st := c.Steps[r.Intn(len(c.Steps))]
 		e := c11Effective(c.Protos[c.Insts[st.Inst].Proto], c.Insts[st.Inst].Over)
 
-		if e.HasPayload {
+		if e.HasPayload && (e.Kind == "remote" || e.Kind == "ctx") {
 			var vals []c11KV
 			for _, v := range e.Values {
 				vals = append(vals, c11KV{K: v.K, V: c11Render(v.T, st.Req, nil)})
@@ -2102,6 +2197,14 @@ func (env *c11Env) probes() []c11Case {
 			"auth-none": func(c *c11Conf) { c.Ep.Auth = c11Auth{} },
 		}
 
+		cc := func(c *c11Conf) {
+			c.Ep.Auth = c11Auth{Kind: "client_credentials", TokenURL: base + "/t/a", ClientID: "cid", Secret: "sec", Scopes: []string{"read"}}
+		}
+		variants["cc:secret"] = func(c *c11Conf) { c.Ep.Auth.Secret = "s3c" }
+		variants["cc:scopes"] = func(c *c11Conf) { c.Ep.Auth.Scopes = []string{"read", "write"} }
+		variants["cc:token-url"] = func(c *c11Conf) { c.Ep.Auth.TokenURL = base + "/t/b" }
+		variants["cc:client-id"] = func(c *c11Conf) { c.Ep.Auth.ClientID = "app" }
+
 		names := make([]string, 0, len(variants))
 		for n := range variants {
 			names = append(names, n)
@@ -2112,6 +2215,12 @@ func (env *c11Env) probes() []c11Case {
 		for _, n := range names {
 			a, b := mk(), mk()
 			b.ID = "pb"
+
+			if strings.HasPrefix(n, "cc:") {
+				cc(&a)
+				cc(&b)
+			}
+
 			variants[n](&b)
 
 			q := c11Req{SubID: "alice", Cred: "t.alice.r"}
@@ -2136,8 +2245,12 @@ func c11Tags(c c11Case, o c11Obs, effs []c11Conf) []string {
 		fmt.Sprintf("steps:%d", len(c.Steps)), fmt.Sprintf("hdrs:%d", len(effs[0].effHeaders())), fmt.Sprintf("vals:%d", len(effs[0].Values)))
 
 	hits, lookups := 0, 0
+	kinds := map[string]bool{}
 
 	for i, so := range o.Steps {
+		kind := effs[c.Steps[i].Inst].Kind
+		kinds[kind] = true
+
 		for _, rel := range strings.Split(c.Steps[i].Rel, "+") {
 			tags = append(tags, "rel:"+rel)
 		}
@@ -2167,7 +2280,7 @@ func c11Tags(c c11Case, o c11Obs, effs []c11Conf) []string {
 		}
 	}
 
-	tags = append(tags, fmt.Sprintf("hits:%d", min(hits, 4)), fmt.Sprintf("lookups:%d", min(lookups, 6)))
+	tags = append(tags, fmt.Sprintf("hits:%d", min(hits, 4)), fmt.Sprintf("lookups:%d", min(lookups, 6)), fmt.Sprintf("kinds-in-history:%d", len(kinds)))
 
 	if o.RepRuns > 0 {
 		tags = append(tags, fmt.Sprintf("rep_distinct:%d", min(o.RepDistinct, 6)))
